@@ -184,7 +184,7 @@ func (v *View) checkC09(res *Result) {
 				break
 			}
 		}
-		if end < a.Ret {
+		if end < a.Ret || v.startDuring(a) {
 			res.Obs["c09.start_during_stop"]++
 			continue
 		}
